@@ -178,6 +178,12 @@ func (ex *Exec) appendModel(st *State, cc *ssa.CallCommon, args []Value) Value {
 	case VSlice:
 		// append(a, b...): a fresh object holding a ++ b (the base is not used again on any path in scope;
 		// see DESIGN 2.4 "append consumes its base")
+		if _, global := ex.globalHeap[base.Obj]; global && base.Obj >= 0 && !ex.inInit {
+			// append writes in place when the base has spare capacity: into package-level memory here.
+			// The memory model (append returns a fresh object) is only sound if that cannot happen.
+			ex.oblige(st, "model", fnName(ex.top)+"#model@append-into-package-memory", []string{"C18"}, Eq(base.Len, base.Cap),
+				"append to a slice of a package-level variable with spare capacity writes shared memory in place")
+		}
 		a := ex.snapshot(st, base)
 		var b *Term
 		switch s := args[1].(type) {
@@ -893,7 +899,7 @@ func (ex *Exec) ghostAsserts(st *State, callee string, args []Value, readOnlyCal
 		for i, a := range args {
 			vars[fmt.Sprintf("$%d", i)] = a
 		}
-		ctx := &EvalCtx{ex: ex, pre: ex.topPre, post: st, vars: vars, bound: map[string]Value{}, fn: ex.top}
+		ctx := &EvalCtx{ex: ex, pre: ex.topPre, post: st, vars: vars, bound: map[string]Value{}, fn: ex.top, loopHeader: st.curLoop}
 		t, err := ctx.EvalBool(cl.E)
 		if err != nil {
 			ex.oblige(st, "binding", ex.topC.Key+"#binding", cl.Props, TFalse, fmt.Sprintf("assert@%s[%s]: %v", cl.Callee, cl.Label, err))
